@@ -20,7 +20,7 @@ from .appkit import (LINKFORMAT, Driver, LinkFormatError, attrs_key, lf_parse, l
 
 PROPERTY = "C20"
 LEVEL = "exploration"
-RUNS = {"quick": 1200, "thorough": 60000}
+RUNS = {"quick": 3000, "thorough": 60000}
 BUDGET = {"quick": 80, "thorough": 3000}
 RULE = ("seeded histories of 6-40 sequential operations by 1-3 real clients against the real "
         "StandaloneResourceDirectory: register / re-register (ep from 3 names, d from 3 sectors, lt valid, "
